@@ -353,7 +353,10 @@ fn chunks_block<T: Real + Elem>(ctx: &mut Ctx, lens: &[usize]) {
                         Some(s) => s,
                         None => continue,
                     };
-                    let scratch = vec![czero::<T>(); pl.adv[e.scratch_index()]];
+                    // chunk independence holds for every admissible scratch: the special call of k >= 3 chunks gets twice the
+                    // advertised length (more than one chunk's worth, less than one per chunk)
+                    let slen = pl.adv[e.scratch_index()] * if special && k >= 3 { 2 } else { 1 };
+                    let scratch = vec![czero::<T>(); slen];
                     let out = vec![czero::<T>(); if e.two_buffers() { n * k } else { 0 }];
                     ctx.call(&pl, e, &x, &out, &scratch, None, json!({"family": if special { "special-chunks" } else { "uniform" }, "k": k}), |r| {
                         if r.panic.is_some() {
@@ -448,7 +451,7 @@ fn scratch_block<T: Real + Elem>(ctx: &mut Ctx, lens: &[usize]) {
                 None => continue,
             };
             for (ei, e) in SCRATCH_ENTRIES.iter().copied().enumerate() {
-                let k = 1 + (n + ei) % 2;
+                let k = 1 + (n + ei) % 5;
                 let adv = pl.adv[e.scratch_index()];
                 let x: Vec<Complex<T>> = gen_input("uniform", n * k, 0, &mut ctx.rng);
                 let key = format!("{}:{}:{}:{}:{}", kind.name(), n, dir_name(d), e.name(), k);
@@ -470,10 +473,12 @@ fn scratch_block<T: Real + Elem>(ctx: &mut Ctx, lens: &[usize]) {
                     continue;
                 }
                 // variants: scratch length x scratch contents x output contents; 7 per entry, rotating over all pairs
-                let lens_v = [("adv", adv), ("adv+1", adv + 1), ("adv+17", adv + 17), ("x2", adv * 2)];
+                // (a scratch that is longer than advertised, also by whole multiples that do not reach one window per chunk)
+                let lens_v = [("adv", adv), ("adv+1", adv + 1), ("adv+17", adv + 17), ("x2", adv * 2), ("x3+1", adv * 3 + 1),
+                              ("xk-1", (adv * k).max(adv + 1) - 1)];
                 for v in 0..7usize {
                     let t = n * 7 + v + ei * 3;
-                    let (lname, slen) = lens_v[t % 4];
+                    let (lname, slen) = lens_v[t % 6];
                     let sc = CONTENTS[(t / 4 + v) % 5];
                     let oc = CONTENTS[(t / 2 + 2 * v + 1) % 5];
                     ctx.case(format!("{} {} {} {} {} {} {}", kind.name(), T::ELEM, n, e.name(), lname, sc, oc), sc != "zero" || oc != "zero" || slen != adv);
